@@ -69,6 +69,16 @@ def _build_c09(inputs):
             with open(os.path.join(d2, "img.cue"), "w") as f:
                 f.write('FILE "data.bin" BINARY\n  TRACK 01 MODE1/2352\n    INDEX 01 00:00:00\n')
             paths["cue->2352"] = os.path.join(d2, "img.cue")
+            # a sampler CD-ROM with an audio demo track: data track + audio track is still a sampler image
+            d3 = w.sub("cue_mixed")
+            with open(os.path.join(d3, "data.bin"), "wb") as f:
+                f.write(L.aw.wrap_2352(raw) + bytes(2352 * 3))
+            with open(os.path.join(d3, "img.cue"), "w") as f:
+                nsec = len(L.aw.wrap_2352(raw)) // 2352
+                mm, ss, ff = nsec // (75 * 60), (nsec // 75) % 60, nsec % 75
+                f.write('FILE "data.bin" BINARY\n  TRACK 01 MODE1/2352\n    INDEX 01 00:00:00\n'
+                        f'  TRACK 02 AUDIO\n    INDEX 01 {mm:02d}:{ss:02d}:{ff:02d}\n')
+            paths["cue->2352+audio"] = os.path.join(d3, "img.cue")
             for name, p in paths.items():
                 out = w.sub("out_" + name.replace(">", "").replace("-", "_"))
                 stdout, err = L.do_export(p, out)
@@ -198,7 +208,7 @@ def _small_c14(tier, seed, shard=(0, 1)):
     cases = []
     for entry in range(3):
         # type byte (offset 16): every value
-        vals = range(256) if tier != "quick" else list(range(0, 256, 7)) + [0x73, 0xF3, 0xF0, 0x70, 0x00, 0xFF]
+        vals = range(256) if tier != "quick" else list(range(0, 256, 7)) + [0x64, 0x70, 0x71, 0x73, 0x78, 0xF0, 0xF3, 0x00, 0xFF]
         for v in vals:
             cases.append((entry, [(16, v)]))
         # name bytes (0..11), size bytes (17..19), start (20..21), padding
@@ -318,6 +328,18 @@ def _small_c15(tier, seed, shard=(0, 1)):
             k += 1
             if k % shard[1] == shard[0]:
                 yield {"model": m, "cut": c}
+    # two partitions: cuts inside the SECOND partition's header / volume table / SAT must not cost the first partition's files
+    model3 = {"partitions": [{"size_sectors": 128, "volumes": [_vol("VA", [_sample("P1", 500, 21), _sample("P2", 4026, 22)])]},
+                             {"size_sectors": 128, "volumes": [_vol("VB", [_sample("Q1", 300, 23)])]}]}
+    base = 128 * 8192
+    cuts3 = [base, base + 1, base + 2, base + 100, base + 201, base + 202, base + 203, base + 210, base + 217, base + 218, base + 1000,
+             base + 1801, base + 1802, base + 1803, base + 5000, base + 24573, base + 24574, base + 24576, base + 24576 + 23, base + 24576 + 24,
+             base + 3 * 8192 + 100, base + 4 * 8192 + 139]
+    cuts3 += [base + rnd.randrange(0, 5 * 8192) for _ in range(6 if tier == "quick" else 80)]
+    for c in cuts3:
+        k += 1
+        if k % shard[1] == shard[0]:
+            yield {"model": model3, "cut": c}
 
 
 @contract("e2e:C15", props=["C15"], abstract=True)
@@ -340,12 +362,20 @@ def _make_image(L, w, spec):
         return w.file("img.akai", L.aw.build_akai_image(expand_akai(spec["model"])))
     if spec["kind"] == "roland":
         return w.file("img.s7xx", L.rw.build_roland_image(expand_roland(spec["model"])))
-    tracks = [{"number": i + 1, "mode": "AUDIO", "title": f"T{i}", "indices": [(1, 0, 0, 2 * i)]} for i in range(2)]
-    binb = L.pcm_words(3, 2352 * 2)[:2352 * 4 + 6]
+    titles = ["../up", "dup", "dup"] if spec.get("hostile") else ["T0", "T1"]
+    tracks = [{"number": i + 1, "mode": "AUDIO", "title": t, "indices": [(1, 0, 0, 2 * i)]} for i, t in enumerate(titles)]
+    binb = L.pcm_words(3, 2352 * 4)[:2352 * 7 + 6]
     return L.cw.write_bin_cue(w.sub("cd"), binb, L.cw.build_cue(tracks))
 
 
 def _do_op(L, image, op, w, tag):
+    if op[0] == "info":
+        # library use: look at the opened image directly (no action has installed naming routines yet)
+        try:
+            names = [c.name for c in image.children]
+            return {"out": repr(sorted(names)), "error": None}
+        except Exception as e:  # noqa
+            return {"out": "", "error": type(e).__name__}
     if op[0] == "ls":
         o, e = L.do_ls(image, op[1])
         return {"out": o, "error": type(e).__name__ if e else None}
@@ -396,6 +426,7 @@ def _small_c16(tier, seed, shard=(0, 1)):
     images = [
         {"kind": "akai", "model": _base_akai(), "paths": ["", "A:", "A:/VOL A", "A:/VOL A/KICK", "B:/LAST", "nope/x"]},
         {"kind": "cdda", "paths": ["", "T0", "zzz"]},
+        {"kind": "cdda", "hostile": True, "paths": [""]},
         {"kind": "roland", "model": _base_roland(), "paths": ["", "V1", "V1/P1", "V1/P1/S0", "_Orphan_perf", "bad"]},
     ]
     k = 0
@@ -746,4 +777,163 @@ CONCRETE["e2e:C13"] = {
              "fields, random byte damage; a Roland image with FAT words, counts, directory and parameter bytes damaged; cue sheets with "
              "deleted / inserted / replaced lines incl. pathological tokens",
     "timeout_s": 20.0, "budget_quick": 280, "budget_thorough": 1500,
+}
+
+
+
+# ================================================================================== C14 (Roland half): a damaged sample record
+def _roland_c14_model():
+    return {"fat_version": 1, "disk_name": "D",
+            "volumes": [{"name": "V", "performances": [0]}],
+            "performances": [{"name": "P", "patches": [0]}],
+            "patches": [{"name": "PA", "partials": [0, 1]}],
+            "partials": [{"name": "PT0", "samples": [0, 1, 2, -1]}, {"name": "PT1", "samples": [3]}],
+            "samples": [_rsample(f"SM{i}", 80 + i, 40 + i, mode=i % 3, freq=i % 6) for i in range(4)]}
+
+
+def _build_c14r(inputs):
+    L = _lib()
+
+    def run():
+        raw, lay = L.rw.build_roland_image_ex(expand_roland(_roland_c14_model()))
+        res = {}
+        with L.Workdir() as w:
+            for tag in ("base", "damaged"):
+                b = bytearray(raw)
+                if tag == "damaged":
+                    ent = lay["samples"][inputs["sample"]]
+                    base_off = ent["dir_offset"] if inputs["area"] == "dir" else ent["param_offset"]
+                    for (k, v) in inputs["damage"]:
+                        b[base_off + k] = v
+                p = w.file(tag + ".img", bytes(b))
+                out = w.sub("out_" + tag)
+                stdout, err = L.do_export(p, out)
+                lsv, lerr = L.do_ls(p, "V/P")
+                res[tag] = {"files": L.read_tree(out), "error": type(err).__name__ if err else None,
+                            "names": L.ls_table_names(lsv), "ls_error": type(lerr).__name__ if lerr else None}
+        return res
+    return {"call": run, "env": {}}
+
+
+def _oracle_c14r(inputs, kind, val, env):
+    if kind != "return":
+        return []
+    bad = []
+    base, dmg = val["base"], val["damaged"]
+    if base["error"] or len([f for f in base["files"] if f.endswith(".wav")]) != 4:
+        return [f"reference-run-failed({base['error']}, {sorted(base['files'])})"]
+    if dmg["error"]:
+        bad.append(f"export-raised({dmg['error']})")
+    for j in range(4):
+        if j == inputs["sample"]:
+            continue
+        n = f"SM{j}"
+        path = f"V/P/{n}.wav"
+        if n not in dmg["names"]:
+            bad.append(f"other-item-still-listed-under-its-name({n!r}; listed {dmg['names']})")
+        if dmg["files"].get(path) != base["files"].get(path):
+            bad.append(f"other-item-exported-unchanged({path}: {'missing' if path not in dmg['files'] else 'differs'})")
+    return bad
+
+
+def _small_c14r(tier, seed, shard=(0, 1)):
+    import random
+    rnd = random.Random(13000 + seed)
+    cases = []
+    for smp in range(4):
+        for area, size in (("dir", 32), ("param", 48)):
+            offs = range(size) if tier != "quick" else sorted(set(list(range(0, size, 5)) + [0, 15, 16, 36, 40, 42, 44, 45][: (8 if area == "param" else 3)]))
+            for off in offs:
+                if off >= size:
+                    continue
+                for v in ((0x00, 0x20, 0x41, 0x7F, 0x80, 0xFF, 0x06, 0x16) if tier != "quick" else (0x00, 0x80, 0xFF, 0x1F)):
+                    cases.append({"sample": smp, "area": area, "damage": [[off, v]]})
+            for _ in range(3 if tier == "quick" else 30):
+                cases.append({"sample": smp, "area": area, "damage": [[rnd.randrange(size), rnd.randrange(256)] for _ in range(rnd.randint(2, 5))]})
+    for k, c in enumerate(cases):
+        if k % shard[1] == shard[0]:
+            yield c
+
+
+@contract("e2e:C14-roland", props=["C14"], abstract=True)
+def _c14r(c):
+    pass
+
+
+CONCRETE["e2e:C14-roland"] = {
+    "build": _build_c14r, "small": _small_c14r, "oracle": _oracle_c14r, "shards": 8,
+    "nontrivial": lambda i, s: s["kind"] == "return",
+    "bound": "a Roland performance with 4 samples (a partial using three slots + a partial using one); for each sample: bytes of its "
+             "32-byte directory entry and 48-byte parameter record set to 4 (quick: every 5th offset + the option/name/pointer bytes) / 8 values "
+             "(thorough: every offset), plus random multi-byte damage confined to the record",
+    "timeout_s": 120.0, "budget_quick": 280, "budget_thorough": 1800,
+}
+
+
+# ================================================================================== C11 / C16: repeated chain look-ups on one table object
+def _build_lookup(inputs):
+    def run():
+        import io
+        from smpl_extract.util.fat import SectorLink
+        from smpl_extract.roland.s7xx.fat import RolandFileAllocationTable
+        from smpl_extract.akai.sat import SegmentAllocationTable
+        n = inputs["n"]
+        data = bytes((7 * i + 1) % 251 for i in range(n * 16))
+
+        def table(cls):
+            links = [SectorLink(next=nx, end=e) for (nx, e) in inputs["links"]]
+            return cls(io.BytesIO(data), n, links)
+
+        def one(t, q, size):
+            try:
+                if q[0] == "file":
+                    s = t.get_file(q[1], q[2])
+                else:
+                    s = t.get_segment(q[1])
+                s.sector_length = size       # tiny sectors so that the whole chain is read
+                s.end_of_file = size * len(s.sector_list)
+                return list(s.sector_list), list(s.read(size * len(s.sector_list)))
+            except Exception as e:  # noqa
+                return type(e).__name__
+        cls = RolandFileAllocationTable if inputs["queries"][0][0] == "file" else SegmentAllocationTable
+        shared = table(cls)
+        streams_first = []
+        got = []
+        for q in inputs["queries"]:
+            got.append(one(shared, q, 16))
+        fresh = [one(table(cls), q, 16) for q in inputs["queries"]]
+        return {"shared": got, "fresh": fresh}
+    return {"call": run, "env": {}}
+
+
+def _oracle_lookup(inputs, kind, val, env):
+    if kind != "return":
+        return ["oracle.no-exception-expected"]
+    return [] if val["shared"] == val["fresh"] else [f"oracle.lookup-independent-of-earlier-lookups(shared={val['shared']}, fresh={val['fresh']})"]
+
+
+def _small_lookup(tier, seed, shard=(0, 1)):
+    import itertools
+    links = [[1, False], [2, False], [3, False], [0, True], [5, False], [3, False]]   # 0->1->2->3(end); 4->5->3
+    qs = [["file", 0, 0], ["file", 0, 1], ["file", 0, 2], ["file", 4, 1], ["file", 1, 1]]
+    qa = [["seg", 0], ["seg", 4], ["seg", 2]]
+    k = 0
+    for pool in (qs, qa):
+        for nq in (2, 3):
+            for seq in itertools.product(pool, repeat=nq):
+                k += 1
+                if k % shard[1] == shard[0]:
+                    yield {"n": 6, "links": links, "queries": [list(q) for q in seq]}
+
+
+@contract("bounded:chain_lookup_history", props=["C11", "C16"], abstract=True)
+def _bl(c):
+    pass
+
+
+CONCRETE["bounded:chain_lookup_history"] = {
+    "build": _build_lookup, "small": _small_lookup, "oracle": _oracle_lookup, "shards": 2,
+    "bound": "every sequence of 2 and 3 chain look-ups (get_file with cluster offsets 0..2 / get_segment) on ONE table object versus a fresh "
+             "table per look-up; the resolved sector list and the bytes read through it are compared",
+    "timeout_s": 10.0,
 }
